@@ -153,10 +153,18 @@ func (c *Ctx) cod7Flags() {
 			}
 		}
 		clean, cleanKnown := false, false
+		opt := map[string]bool{} // boolean Will options as decided on this path
+		optKnown := map[string]bool{}
 		for i := range p.Events {
 			e := &p.Events[i]
-			if e.Kind == pathx.KAssume && canon(e.Val) == "Config.CleanSession" {
+			if e.Kind != pathx.KAssume {
+				continue
+			}
+			switch k := canon(e.Val); k {
+			case "Config.CleanSession":
 				clean, cleanKnown = e.Truth, true
+			case "Config.Will.Retain", "Config.Will.AtLeastOnce", "Config.Will.ExactlyOnce":
+				opt[k], optKnown[k] = e.Truth, true
 			}
 		}
 		b := flags.bits
@@ -174,6 +182,29 @@ func (c *Ctx) cod7Flags() {
 		}
 		if b&0x18 == 0x18 {
 			bad = append(bad, "Will QoS 3")
+		}
+		if will {
+			// Will QoS (bits 3–4) and Will Retain (bit 5) say what the Config says
+			wantQoS := uint64(0)
+			switch {
+			case opt["Config.Will.ExactlyOnce"]:
+				wantQoS = 2
+			case opt["Config.Will.AtLeastOnce"]:
+				wantQoS = 1
+			}
+			// the level must have been decided from the Config at all
+			if !optKnown["Config.Will.ExactlyOnce"] || !opt["Config.Will.ExactlyOnce"] && !optKnown["Config.Will.AtLeastOnce"] {
+				bad = append(bad, "the Will QoS is not decided from Config.Will.ExactlyOnce / AtLeastOnce on this path")
+			}
+			if !optKnown["Config.Will.Retain"] {
+				bad = append(bad, "Will Retain is not decided from Config.Will.Retain on this path")
+			}
+			if got := b >> 3 & 3; got != wantQoS {
+				bad = append(bad, fmt.Sprintf("Will QoS bits say %d on a path where the Config asks for %d (ExactlyOnce: %v, AtLeastOnce: %v)", got, wantQoS, opt["Config.Will.ExactlyOnce"], opt["Config.Will.AtLeastOnce"]))
+			}
+			if bit(5) != opt["Config.Will.Retain"] {
+				bad = append(bad, fmt.Sprintf("Will Retain bit is %v on a path where Config.Will.Retain is %v", bit(5), opt["Config.Will.Retain"]))
+			}
 		}
 		if bit(7) != emitted["UserName"] {
 			bad = append(bad, fmt.Sprintf("User Name Flag is %v but the user name field is emitted: %v", bit(7), emitted["UserName"]))
